@@ -10,10 +10,11 @@ namespace {
 int g_cache_mode = 0, g_sieve_mode = 0;
 uint64_t g_applied = 0;
 
-hid_t make_fapl() {
-    if (g_cache_mode == 0 && g_sieve_mode == 0) return H5P_DEFAULT;
-    hid_t fapl = H5Pcreate(H5P_FILE_ACCESS);
-    if (fapl < 0) return H5P_DEFAULT;
+// the knob is applied on top of whatever access list the library passes (a copy of it; H5P_DEFAULT today)
+hid_t make_fapl(hid_t given) {
+    if (g_cache_mode == 0 && g_sieve_mode == 0) return given;
+    hid_t fapl = given == H5P_DEFAULT ? H5Pcreate(H5P_FILE_ACCESS) : H5Pcopy(given);
+    if (fapl < 0) return given;
     if (g_cache_mode == 1) H5Pset_cache(fapl, 0, 0, 0, 0.75);
     if (g_cache_mode == 2) H5Pset_cache(fapl, 0, 13, 64 * 1024, 0.75);
     if (g_sieve_mode == 1) H5Pset_sieve_buf_size(fapl, 0);
@@ -23,13 +24,13 @@ hid_t make_fapl() {
 }
 
 extern "C" hid_t __wrap_H5Fopen(const char *name, unsigned flags, hid_t fapl) {
-    hid_t mine = (fapl == H5P_DEFAULT) ? make_fapl() : fapl;
+    hid_t mine = make_fapl(fapl);
     hid_t r = __real_H5Fopen(name, flags, mine);
     if (mine != fapl) H5Pclose(mine);
     return r;
 }
 extern "C" hid_t __wrap_H5Fcreate(const char *name, unsigned flags, hid_t fcpl, hid_t fapl) {
-    hid_t mine = (fapl == H5P_DEFAULT) ? make_fapl() : fapl;
+    hid_t mine = make_fapl(fapl);
     hid_t r = __real_H5Fcreate(name, flags, fcpl, mine);
     if (mine != fapl) H5Pclose(mine);
     return r;
